@@ -51,6 +51,40 @@ for cls_name, kw in sorted(dm._DATASET_KEYWORDS.items()):
             break
     if bad:
         break
+if not bad:
+    # file-backed C-STORE request (chunked send): data set parameter None, _dataset_path = (path, offset)
+    import os, tempfile
+    from pathlib import Path
+    from pynetdicom.dimse_primitives import C_STORE
+    fd, tmp = tempfile.mkstemp(suffix=".bin")
+    os.write(fd, b"\xAA" * 7 + b"0123456789" * 5)
+    os.close(fd)
+    try:
+        for mx in (0, 16, 16382):
+            p = C_STORE()
+            p.MessageID, p.AffectedSOPClassUID, p.AffectedSOPInstanceUID, p.Priority = 1, "1.2.840.10008.5.1.4.1.1.2", "1.2.3", 2
+            p.DataSet = None
+            p._dataset_path = (Path(tmp), 7)
+            msg = dm.C_STORE_RQ()
+            msg.primitive_to_message(p)
+            announces = msg.command_set.CommandDataSetType != 0x0101
+            pds = list(msg.encode_msg(1, mx))
+            data = b"".join(v[1:] for pd in pds for (_c, v) in pd.presentation_data_value_list if not (v[0] & 1))
+            nfr = sum(1 for pd in pds for (_c, v) in pd.presentation_data_value_list if not (v[0] & 1))
+            rx = DIMSEMessage()
+            complete = False
+            for pd in pds:
+                q = P_DATA()
+                q.presentation_data_value_list = [list(x) for x in pd.presentation_data_value_list]
+                complete = rx.decode_msg(q)
+            if not announces or nfr == 0 or data != b"0123456789" * 5 or complete is not True:
+                bad = dict(input={"message": "C_STORE_RQ", "DataSet": None, "_dataset_path": "(file, offset 7)", "max_pdu": mx},
+                           observed={"CommandDataSetType": hex(msg.command_set.CommandDataSetType), "data_fragments_sent": nfr,
+                                     "bytes_sent": len(data), "receiver_completed_message": complete},
+                           expected="announced, 50 bytes of data fragments, receiver completes")
+                break
+    finally:
+        os.unlink(tmp)
 if bad:
     done(True, **bad)
 done(False, note="every message class announces a data set exactly when it sends one and is completed by the receiver")
